@@ -288,6 +288,10 @@ class Model():
                     self.remove_association(association)
                     return
                 field.remove(asset)
+                # The asset is no longer part of the association
+                assocs = list(asset.associations)
+                assocs.remove(association)
+                asset.associations = assocs
 
         if not found:
             raise LookupError(f'Asset "{asset.name}"({asset.id}) is not '
